@@ -90,13 +90,13 @@ CHECKS['C13'] = dict(
    technique='function transcription checked by TLC and replayed transition-complete on the real batch handler (TLC trace validation of the real outcomes) + PlusCal protocol model checked by TLC + TLC linearizability validation of recorded real histories against PQAbs',
    design='4 (C13), 6.7')
 CHECKS['C05'] = dict(
-   text='TLC enumerates, for every size <= 12 (14 thorough), several grains and both kinds of split (middle split and the partitioners proportional split '
+   text='TLC model-checks RangePool - a transcription of range_vector<blocked_range<int>, 8> (the depth-limited ring of sub-ranges of the adaptive partitioners: split_to_fill / pop_back / pop_front) for every range of <= 14 (thorough 40) iterations, grains 1-2 (1-5), depth limits 0-3 (0-5): the pieces are non-empty, adjacent, cover every iteration exactly once together with what was popped, respect the depth limit and the grain - and EVERY transition of that graph is applied to the REAL range_vector (ring, indices and depths set white-box); the real outcome is validated by TLC (TraceRangePool, the verdict) and compared with the transcription (drift). TLC enumerates, for every size <= 12 (14 thorough), several grains and both kinds of split (middle split and the partitioners proportional split '
         'with its rounding), every split tree a partitioner may produce on a blocked_range: non-empty, disjoint, exact cover, simple_partitioner chunk bounds. '
         'The subranges handed to the bodies of real parallel_for runs (1-d: 13 sizes x 5 grains x 4 partitioners; 2d/3d/nd; first/last/step; parallel_for_each '
         'with feeder; parallel_invoke; sizes 2^24+-1, 2^31+-1, 2^32+5, 2^40+3, 2^64-2) on 3 logical threads under seeded random cooperative schedules - the '
         'schedule decides the steal pattern that drives the adaptive partitioners - are validated by TLC against RangeCover.',
    note='the depth/divisor/steal-feedback logic of auto/static/affinity partitioners is exercised on the real code only (the model lets them stop splitting anywhere); steal patterns sampled; float split point above 2^24 validated as legal, not predicted',
-   technique='function transcription checked by TLC and replayed transition-complete on the real batch handler (TLC trace validation of the real outcomes) + TLA+ function specification of range splitting checked by TLC + TLC trace validation of recorded subranges against RangeCover',
+   technique='function transcription of the partitioners\' range pool checked by TLC and replayed transition-complete on the real range_vector + function transcription checked by TLC and replayed transition-complete on the real batch handler (TLC trace validation of the real outcomes) + TLA+ function specification of range splitting checked by TLC + TLC trace validation of recorded subranges against RangeCover',
    design='4 (C05)')
 CHECKS['C06'] = dict(
    text='TLC model-checks Reduce (lazy Body split when the left sibling is still running, zombie Body, join in fold_tree) over complete trees with 4 and 8 '
